@@ -94,7 +94,7 @@ def sigJust (cfg : Cfg) (c : Committee) (j : Just) (ek : VKey) : Bool :=
 
 /-- message phase → justification phase → (expected round, `true` = the message's value key /
 `false` = the zero key). The DECIDE row's round (`math.MaxUint64` in the Go table) is never compared, see `anyRound`. -/
-def expectation (ph : Phase) (round : Nat) (jph : Phase) : Option (Nat × Bool) :=
+def expectation (ph : Nat) (round : Nat) (jph : Nat) : Option (Nat × Bool) :=
   if ph = CONVERGE ∨ ph = PREPARE then
     if jph = COMMIT then some (u64 (round + maxU64), false)
     else if jph = PREPARE then some (u64 (round + maxU64), true)
@@ -108,7 +108,7 @@ def expectation (ph : Phase) (round : Nat) (jph : Phase) : Option (Nat × Bool) 
 /-- When the justification's round is not compared. **As repaired**: only for DECIDE (whose table row
 carries no round). The pinned tree tests `expected.Round == math.MaxUint64` instead, which also matches the
 COMMIT row of a message whose own round is 2^64−1 (finding UNSOUND-ACCEPT-MAXROUND, see DESIGN / C05). -/
-def anyRound (mph : Phase) (_er : Nat) : Bool := decide (mph = DECIDE)
+def anyRound (mph : Nat) (_er : Nat) : Bool := decide (mph = DECIDE)
 
 /-- `validateJustification` up to (excluding) the cache look-up: presence, instance, supplemental data,
 chain validity, table (phase, round, and — full mode only — value). Returns the justification and the
@@ -269,7 +269,7 @@ def partially (cfg : Cfg) (comt : Nat → Option Committee) (prog : Progress) (c
 /-! ## `FullyValidateMessage` -/
 
 /-- The "abbreviated" expectation table: `some true` = the vote value, `some false` = bottom. -/
-def fullTable (ph jph : Phase) : Option Bool :=
+def fullTable (ph jph : Nat) : Option Bool :=
   if ph = CONVERGE then
     if jph = COMMIT then some false else if jph = PREPARE then some true else none
   else if ph = PREPARE then
@@ -306,7 +306,7 @@ def fully (cfg : Cfg) (prog : Progress) (pm : PMsg) : Verdict :=
 /-! ## `pmsg`: strip, infer, complete -/
 
 /-- `inferJustificationVoteValue` (on the justification of a message of phase `ph` and value `x`) -/
-def inferJust (ph : Phase) (x : Chain) (j : Just) : Just :=
+def inferJust (ph : Nat) (x : Chain) (j : Just) : Just :=
   if ph = CONVERGE ∨ ph = PREPARE ∨ ph = COMMIT then
     if j.vote.phase = PREPARE then { j with vote := { j.vote with value := x } } else j
   else if ph = DECIDE then
